@@ -88,6 +88,12 @@ type c09Spec struct {
 	upLocal     string
 }
 
+// c09UpgradeToken is the spelling of the (case-insensitive) websocket upgrade token a session uses; it follows
+// the session's data seed so that the choice list of the generator is untouched.
+func c09UpgradeToken(sp *c09Spec) string {
+	return []string{"websocket", "WebSocket", "Websocket", "WEBSOCKET"}[sp.SeedC%4]
+}
+
 type c09Upstream struct {
 	ln    net.Listener
 	specs *sync.Map
@@ -741,6 +747,10 @@ func c09Conn(c *ctx, rg *c09Rig, sp *c09Spec, hello map[string][]byte, r *rand.R
 		WriteMax                          int
 		Pause, SlowRead                   bool
 	}{sp.ID, sp.Kind, sp.Close, sp.HelloMode, sp.WS101, sp.C2U, sp.U2C, sp.WriteMax, sp.Pause, sp.SlowRead})}
+	if strings.HasPrefix(sp.Kind, "ws") {
+		in["UpgradeToken"] = c09UpgradeToken(sp)
+		c.R.Count("ws_upgrade_token_"+c09UpgradeToken(sp), 1)
+	}
 	viol := func(sig, detail string) {
 		c.R.Violate("c09:"+sig+":"+sp.Kind+":"+sp.Close, detail+" ["+class+"]", in)
 	}
@@ -801,7 +811,7 @@ func c09Conn(c *ctx, rg *c09Rig, sp *c09Spec, hello map[string][]byte, r *rand.R
 			conn.Write(append(append([]byte{}, sniHello...), prelude...))
 		}
 	case "ws", "wss":
-		upg := fmt.Sprintf("GET /ws/%s HTTP/1.1\r\nHost: "+sp.Kind+".test\r\nUpgrade: websocket\r\nConnection: Upgrade\r\nSec-WebSocket-Key: dGhlIHNhbXBsZSBub25jZQ==\r\nSec-WebSocket-Version: 13\r\n\r\n", sp.ID)
+		upg := fmt.Sprintf("GET /ws/%s HTTP/1.1\r\nHost: "+sp.Kind+".test\r\nUpgrade: "+c09UpgradeToken(sp)+"\r\nConnection: Upgrade\r\nSec-WebSocket-Key: dGhlIHNhbXBsZSBub25jZQ==\r\nSec-WebSocket-Version: 13\r\n\r\n", sp.ID)
 		// an eager client sends the start of its stream in one segment with the upgrade request (like bytes that follow a
 		// ClientHello): they are the first bytes of the tunnel
 		eager := sp.HelloMode == "coalesced" && sp.WS101 == "whole"
